@@ -1,41 +1,47 @@
 /-!
 # Where the data of an inline image ends (`content::inline_image`, byte level)
 
-`rest` are the bytes that follow the `ID` keyword.  The reader takes `data_start = pos + 1` (one byte after
-`ID` is skipped), looks for the first occurrence of the three bytes LF `E` `I` from `pos` on
-(`lexer.seek_substr("\nEI")`, after the `fix:` of its overlap bug) and takes `data_end = (position after the
-match) - 3`.  `Lexer::new_substr` turns a backward range `start > end` into `end + 1 .. start + 1`.
-Everything else of `inline_image` (dictionary, filters) is above this level (`Tok.bi`).
+`rest` are the bytes that follow the `ID` keyword (from the lexer position on).  The reader takes
+`data_start = pos + 1` (one byte after `ID` is skipped) and looks for the first index `i` with a white-space
+byte at `rest[i]`, `E` `I` at `rest[i+1]`, `rest[i+2]`, and a token boundary after them (`rest[i+3]` absent,
+white-space or a delimiter); `data_end = max (pos + i) data_start`, the lexer goes on at `pos + i + 3`.
+(After the `fix:` commit "an inline image ends at the token EI after any white-space character"; before it the
+search was for the three bytes LF `E` `I`.)  Everything else of `inline_image` (dictionary, filters) is above
+this level (`Tok.bi`).
 -/
 
 namespace ContentInline
 
-def startsLfEI : List UInt8 → Bool
-  | 10 :: 69 :: 73 :: _ => true
+/-- white-space of ISO 32000-1 Table 1 -/
+def isWs (b : UInt8) : Bool := b == 0 || b == 9 || b == 10 || b == 12 || b == 13 || b == 32
+
+/-- delimiters of Table 2 -/
+def isDelim (b : UInt8) : Bool :=
+  b == 40 || b == 41 || b == 60 || b == 62 || b == 91 || b == 93 || b == 123 || b == 125 || b == 47 || b == 37
+
+/-- a token may end before these bytes -/
+def endsToken : List UInt8 → Bool
+  | [] => true
+  | b :: _ => isWs b || isDelim b
+
+/-- white-space, `E`, `I`, token boundary -/
+def startsEI : List UInt8 → Bool
+  | w :: 69 :: 73 :: rest => isWs w && endsToken rest
   | _ => false
 
-/-- offset of the first occurrence of LF `E` `I` -/
-def findLfEI : List UInt8 → Option Nat
+/-- offset of the white-space byte before the first token `EI` -/
+def findEI : List UInt8 → Option Nat
   | [] => none
   | b :: rest =>
-    if startsLfEI (b :: rest) then some 0
-    else match findLfEI rest with
+    if startsEI (b :: rest) then some 0
+    else match findEI rest with
       | some i => some (i + 1)
       | none => none
 
 /-- (image data, bytes after `EI`) as the reader cuts them; `none`: "inline image exceeds expected data range" -/
 def inlineData (rest : List UInt8) : Option (List UInt8 × List UInt8) :=
-  match findLfEI rest with
+  match findEI rest with
   | none => none
-  | some i =>
-    -- data range `1 .. i`; backward (i = 0) becomes `1 .. 2`
-    let data := if i = 0 then (rest.drop 1).take 1 else (rest.take i).drop 1
-    some (data, rest.drop (i + 3))
-
-/-- white-space of ISO 32000-1 Table 1 -/
-def isWs (b : UInt8) : Bool := b == 0 || b == 9 || b == 10 || b == 12 || b == 13 || b == 32
-
-/-- `bs` contains LF `E` `I` -/
-def hasLfEI (bs : List UInt8) : Bool := (findLfEI bs).isSome
+  | some i => some ((rest.take i).drop 1, rest.drop (i + 3))
 
 end ContentInline
